@@ -331,10 +331,21 @@ class HMat:
     def has_attr(self, name):
         return name in ("shape", "ndim", "dtype", "copy", "reshape")
 
+    column_atoms = False       # when set (C04 left_lu case): A[:, j:j+1] is modelled as A @ e_j with a unit-vector atom e_j
+
     def getitem(self, idx):
         """Sub-blocks of an abstract matrix are only shapes (their entries are not modelled)."""
         t = idx if isinstance(idx, tuple) else (idx,)
         t = t + (slice(None),) * (2 - len(t))
+        if HMat.column_atoms and len(t) == 2 and isinstance(t[0], slice) and t[0] == slice(None) and isinstance(t[1], slice) and t[1].step is None:
+            j, j1 = t[1].start, t[1].stop
+            from .sym import SInt as _SI
+            if j is not None and j1 is not None and (_SI.lift(j1 - j) is not None) and cur().valid(SBool.mk(_SI.lift(j1 - j) == 1)) is True:
+                key = str(_SI.lift(j))
+                e = Atom(f"e[{key}]", self.p.cols, 1, "gen", alg="H")
+                out = HMat(self.p @ NC.atom(e))
+                out.column_index = j
+                return out
         shp = []
         for i, d in zip(t, self.shape):
             if isinstance(i, slice):
